@@ -241,6 +241,23 @@ def make_episode(ep: Dict[str, Any]) -> Dict[str, Any]:
     return out
 
 
+class TickClock:
+    """A caller's clock that moves a second per reading (so that anything read more than once per turn shows)."""
+
+    def __init__(self, start):
+        self.t = int(start) - 1000
+
+    def __call__(self):
+        self.t += 1000
+        return self.t
+
+
+def hand_over_clock(ctx: Any, start_ms: int) -> None:
+    """A scheduler-style driver hands its CLOCK over: ctx.now_ms is callable, ctx.now unset."""
+    ctx.now_ms = TickClock(start_ms)
+    ctx.now = None
+
+
 def build_state(world: Dict[str, Any], *, store: Any = None) -> Dict[str, Any]:
     st = store if store is not None else InMemoryGraphStore()
     for gid, g in world["graphs"].items():
@@ -699,6 +716,8 @@ class EngineRun:
                         setattr(ctx, pk, pv)
             for extra_k, extra_v in (op.get("ctx") or {}).items():
                 setattr(ctx, extra_k, extra_v)
+            if op.get("now_ms_callable"):
+                hand_over_clock(ctx, op.get("now_ms", T0_MS))
             self.last_ctx = ctx
             res = self.turn_fn(ctx, st, op["text"])
             self.results.append(res)
